@@ -421,6 +421,14 @@ def run(ctx):
         stats["verdicts"][verdict] = stats["verdicts"].get(verdict, 0) + 1
         if len(stats["configs"]) < 6:
             stats["configs"].append(" ; ".join(lines[:-1])[:400])
+        if log.verdict is None and rc != 0:
+            # the real stepping loop crashed on this input: the script is the failing input; the
+            # steps logged before the crash are still evaluated below
+            ctx.violation("harness-crash", "the real Stepper crashed (rc=%d) on this input" % rc,
+                          {"harness": "harness/stepping.cc", "script": lines, "rc": rc,
+                           "steps_logged": len(log.steps)})
+            log.verdict = "crashed"
+            log.errors = [e for e in log.errors if not e.startswith("truncated")]
         if log.verdict is None or log.errors:
             ctx.violation("harness-run", "stepping harness aborted or rejected a directive",
                           {"script": lines, "rc": rc, "errors": log.errors[:5]}, found_input=False)
